@@ -335,6 +335,8 @@ impl WalWriter {
                 format!("Failed to write entry size: {e}").into(),
             ))
         })?;
+        #[cfg(feature = "verif-hooks")]
+        crate::verif_hooks::crash_point("wal.len");
 
         // Write entry data
         self.file.write_all(&serialized).map_err(|e| {
@@ -342,6 +344,8 @@ impl WalWriter {
                 format!("Failed to write WAL entry: {e}").into(),
             ))
         })?;
+        #[cfg(feature = "verif-hooks")]
+        crate::verif_hooks::crash_point("wal.payload");
 
         self.current_size += 4 + serialized.len() as u64;
         self.entry_count += 1;
@@ -409,6 +413,8 @@ impl WalWriter {
                 format!("Failed to sync WAL: {e}").into(),
             ))
         })?;
+        #[cfg(feature = "verif-hooks")]
+        crate::verif_hooks::crash_point("rot.sync");
 
         // Rename to timestamped file
         let timestamp = current_timestamp();
@@ -420,6 +426,8 @@ impl WalWriter {
                 format!("Failed to rotate WAL: {e}").into(),
             ))
         })?;
+        #[cfg(feature = "verif-hooks")]
+        crate::verif_hooks::crash_point("rot.rename");
 
         // Create new WAL file
         self.file = OpenOptions::new()
@@ -784,6 +792,8 @@ impl<T: Serialize + for<'de> Deserialize<'de> + Clone + PartialEq + Send + Sync 
                 ))
             })?;
         }
+        #[cfg(feature = "verif-hooks")]
+        crate::verif_hooks::crash_point("ck.tmp");
 
         // Atomic rename
         std::fs::rename(&temp_path, &snapshot_path).map_err(|e| {
@@ -791,6 +801,8 @@ impl<T: Serialize + for<'de> Deserialize<'de> + Clone + PartialEq + Send + Sync 
                 format!("Failed to rename snapshot: {e}").into(),
             ))
         })?;
+        #[cfg(feature = "verif-hooks")]
+        crate::verif_hooks::crash_point("ck.rename");
 
         // Clean up old WAL files
         self.cleanup_old_wal_files(last_transaction_id).await?;
@@ -1248,6 +1260,8 @@ impl<T: Serialize + for<'de> Deserialize<'de> + Clone + PartialEq + Send + Sync 
                         format!("Failed to remove old WAL: {e}").into(),
                     ))
                 })?;
+                #[cfg(feature = "verif-hooks")]
+                crate::verif_hooks::crash_point("ck.delwal");
             }
         }
 
@@ -1305,6 +1319,8 @@ impl<T: Serialize + for<'de> Deserialize<'de> + Clone + PartialEq + Send + Sync 
                         format!("Failed to remove old snapshot: {e}").into(),
                     ))
                 })?;
+                #[cfg(feature = "verif-hooks")]
+                crate::verif_hooks::crash_point("ck.delsnap");
             }
         }
 
@@ -1365,6 +1381,12 @@ impl<T: Serialize + for<'de> Deserialize<'de> + Clone + PartialEq + Send + Sync 
         })?;
         listeners.push(Box::new(listener));
         Ok(())
+    }
+
+    /// Current value of the transaction counter.
+    #[cfg(feature = "verif-hooks")]
+    pub fn verif_transaction_counter(&self) -> u64 {
+        self.transaction_counter.lock().map(|g| *g).unwrap_or(u64::MAX)
     }
 
     /// Get recovery statistics
